@@ -15,6 +15,7 @@ RULE = ('baselines of 2-8 integer points, slope -58..58 deg, sagitta up to 6 px,
         '0/1/2; line heights 16-64; scale 0.8-1.5; images smooth / checkerboard / noise (3 channels); degenerate lines (single point, identical points, vertical, 1-3 px, zero heights) '
         'for the fallback clause; LineCropper.process_page through its real constructor. non-trivial = non-degenerate line with >= 3 points; distinct = hash of (baseline, heights, parameters) Baselines of 17-40 points; heights as list / tuple / float64 / float32 / int arrays; LineCropper.process_page a second time after the lines moved and with another image. Pages smaller than a crop; right-to-left baselines; the fallback crop after the caller wrote into an earlier one.')
 RULE += ' Round 6: Pages with a side beyond 32767 px; grids for other row counts and a re-assigned line height; unsigned integer heights.'
+RULE += ' Round 7: Outside lines starting exactly at the page edge; crops of one or two columns.'
 ASSUMPTIONS = ['baselines are generated from a polynomial of degree <= the fitted degree, then rounded to integers (the cropper casts baselines to int)',
                'numeric bounds (constants below) were calibrated on the repaired tree with about a 2x margin', 'cv2.remap agrees with float64 bilinear sampling within 1 grey level',
                'joint-shift clause skipped when the rotated baseline length is within 1e-6 of an integer (np.arange length flips on round-off)',
